@@ -57,6 +57,7 @@ def guarded(ctx, name, f, *a):
 def run(ctx):
     quick = ctx.tier == "quick"
     ctx.prepare("C16.v")
+    ctx.rule("methods regenerated from the source on every run (tools/translate_loops.py -> coq/gen/Loops.v) and proved equal to the hand models for all inputs: PolyAFixer.count_polya_exons / count_polyt_exons whole (C16_count_polya_exons_is_the_source, C16_count_polyt_exons_is_the_source), PolyAFixer.correct_read_info with its while loop as a Fixpoint on fuel (C16_correct_read_info_is_the_source)")
     ctx.rule("loop functions regenerated from the source on every run (tools/translate_loops.py -> coq/gen/Loops.v) and proved equal to the hand models for all inputs: correct_bam_coords (C16_correct_bam_coords_is_the_source), shift_polya / shift_polyt for 0 <= exon_count <= len(read_exons) (C16_shift_polya_is_the_source, C16_shift_polyt_is_the_source)")
     ctx.rule("regenerated from the source on every run (tools/translate_extra.py -> coq/gen/Extra.v; bridged to the models by C16_cigar_codes_are_the_sources, C16_polya_exon_counts_are_the_sources, C16_finder_defaults_are_the_sources): CigarEvent values with get_match_events / get_ins_del_match_events (the code -> constructor table OPN of this file is CigarBridgeDefs.cigar_of_code), the sentinel / scan direction / break test / exon test of PolyAFixer.count_polya_exons and count_polyt_exons, the PolyAFinder defaults (window 16, fraction 0.75, polyA_count 12) and its external / internal search windows")
     guarded(ctx, "get_read_blocks", sec_read_blocks, ctx, quick)
